@@ -505,7 +505,7 @@ def run(tier: str, seed: int, st: core.ProofStatus) -> core.Result:
     rng = core.sub_rng(seed, PROP, tier)
     drv = core.Driver()
     alphabet = drv.call({"prop": PROP, "op": "alphabet"})
-    n = 120 if tier == "quick" else 2500
+    n = 300 if tier == "quick" else 2500
     projects = [gen_project(rng, alphabet) for _ in range(n)]
     rendered_all = []
     for files, cfg, spell in projects:
